@@ -81,13 +81,10 @@ def conclude(pid, spec, results, tier, seed, wall):
                 continue
             by_fn.setdefault(d.fn, []).append(d)
         for fn, ds in by_fn.items():
-            named = [d for d in ds if d.clause and not d.clause.startswith('trait.')
-                     and d.message.startswith('postcondition')]
+            named = []
             for d in ds:
                 if d.message.startswith('recommendation not met'):
                     continue
-                if d.clause and d.clause.startswith('trait.') and named:
-                    continue   # the trait-level post is the conjunction of the named clauses
                 key = _diag_key(d, r.mode)
                 if key['kind'] == 'overflow':
                     # implicit panic site: a C20 obligation, not one of the other properties
